@@ -84,7 +84,11 @@ def split_byte_interval(
 
     # Group overlapping blocks so they can be processed as a unit.
     groups: List[BlockGroup] = []
-    for block in sorted(interval.blocks, key=lambda b: b.offset):
+    # Zero-sized blocks sort before other blocks at the same offset, so that
+    # the grouping does not depend on the iteration order of the block set.
+    for block in sorted(
+        interval.blocks, key=lambda b: (b.offset, b.size != 0)
+    ):
         block_end = block.offset + block.size
         if groups == [] or groups[-1].end <= block.offset:
             groups.append(BlockGroup(block.offset, block_end, [block]))
